@@ -7,7 +7,10 @@
    a clone: result as predicted; on Err the complete real configuration (all fields of all maps) equals the
    one before; on Ok the projection equals the spec's successor. Two concretisations (IPv4/IPv6, spellings
    of the invalid values, filler in the unmodelled fields).
-3. worker leg (harness/replay_config_worker, if built): the same rejected commands sent to a real worker.
+3. harness/drive_config (I->S): seeded long random command sequences with full-width field values on a real
+   ConfigState; on every Err the complete configuration is compared with a clone taken before; the recorded trace
+   (command, result, projection of the whole state after every command) must be a behaviour of
+   spec/Trace_ConfigState.tla, with P_C07 evaluated in every state. A corrupted trace must be rejected.
 """
 import os
 
@@ -20,7 +23,7 @@ PID = "C07"
 def run(tier, replay=None):
     rep = vlib.Report(PID, tier)
     wd = vlib.workdir(PID)
-    bins = vlib.cargo_build(["replay_config"])
+    bins = vlib.cargo_build(["replay_config"] + cc.drive_bins())
     thorough = tier == "thorough"
     inv = ["TypeOK", "P_C07"]
 
@@ -44,6 +47,7 @@ def run(tier, replay=None):
     rep.extra["accepted_commands_checked"] = sum(s["accepted"] for s in sums)
     rep.extra["verbs_accepted_rejected"] = sums[0]["verbs"]
     rep.add_samples(sums[0]["samples"], 3)
+    cc.trace_leg(rep, PID, tier, wd, bins, "c07")
     verbs = sums[0]["verbs"]
     never_rejected = [v for v, (a, r) in verbs.items() if r == 0 and v != "AddBackend"]
     never_accepted = [v for v, (a, r) in verbs.items() if a == 0]
